@@ -1,2 +1,168 @@
-(* C02 - stub; theorems follow *)
-From Verif Require Import Base.Prelude Model.Pipe.
+(* C02 - Calling a pipeline equals composing its functions along the DAG.
+   Only statements here; every proof is `exact <lemma>` into Proofs/PipeFacts.v.
+   All theorems hold for ARBITRARY user code `body` (Err models a raise) and output picker `pick`.
+   Reading guide:  Pipe.run  = model of Pipeline.run/_run/_get_func_args/_update_all_results (memo, log, used set)
+                   Pipe.eval = the specification (plain recursion along the producer relation, no memo/log)
+                   needed_top p kw o = the functions o depends on, not cut off by supplied / bound names. *)
+From Coq Require Import Permutation.
+From Verif Require Import Base.Prelude Base.StrOrd Base.Graph Model.Pipe Proofs.GraphFacts Proofs.PipeFacts Proofs.ArgCombFacts.
+
+(* Complete characterisation: error of the evaluation, else rejection of a surplus keyword, else the value. *)
+Theorem C02_run_characterised : forall body pick p o kw,
+  wf_pipeline p -> is_output p o = true -> aget kw o = None ->
+  fst (run body pick p o kw false) =
+    match eval_top body pick p kw o with
+    | Err e => Err e
+    | Ok v => if subset_str (akeys kw) (param_names_needed p kw o) then Ok (Value v)
+              else Err UnusedParametersError
+    end.
+Proof. exact run_char_final. Qed.
+Print Assumptions C02_run_characterised.
+
+(* pipeline(o, kw...) = run = func(o)(kw...) returns the value of the specification *)
+Theorem C02_run_eq_eval : forall body pick p o kw,
+  wf_pipeline p -> is_output p o = true -> aget kw o = None -> no_unused p kw o ->
+  fst (run body pick p o kw false) = lift_value (eval_top body pick p kw o).
+Proof. exact run_eq_eval. Qed.
+Print Assumptions C02_run_eq_eval.
+
+(* ... and with sufficient arguments and user functions that do not raise, that value exists *)
+Theorem C02_sufficient_yields_value : forall body pick p kw o,
+  wf_pipeline p -> (forall f a, exists r, body f a = Ok r) -> is_output p o = true -> sufficient p kw o ->
+  exists v, eval_top body pick p kw o = Ok v.
+Proof. exact eval_ok_of_sufficient. Qed.
+Print Assumptions C02_sufficient_yields_value.
+
+(* exactly the needed functions are called, each once, with the arguments of the specification, every producer
+   before its consumers *)
+Theorem C02_run_calls_once_in_order : forall body pick p o kw v,
+  wf_pipeline p -> is_output p o = true -> aget kw o = None -> eval_top body pick p kw o = Ok v ->
+  let lg := snd (run body pick p o kw false) in
+  NoDup (map fst lg)
+  /\ (forall g, In g p -> (In (fname g) (map fst lg) <-> In g (needed_top p kw o)))
+  /\ (forall l1 c l2, lg = l1 ++ c :: l2 ->
+        exists f, In f p /\ fst c = fname f /\ eval_args body pick p kw f = Ok (snd c)
+                  /\ forall g, In g (ups p kw f) -> In (fname g) (map fst l1)).
+Proof. exact run_calls_once_in_order. Qed.
+Print Assumptions C02_run_calls_once_in_order.
+
+(* the listing order of the functions is irrelevant (value, full_output dict, call log, errors) *)
+Theorem C02_run_perm_invariant : forall body pick p p' o kw full,
+  wf_pipeline p -> Permutation p p' -> run body pick p o kw full = run body pick p' o kw full.
+Proof. exact run_perm_invariant. Qed.
+Print Assumptions C02_run_perm_invariant.
+
+(* full_output=True: supplied values as supplied; for every other name, an entry iff it is an output of a
+   needed function, and then it is the value of that same evaluation *)
+Theorem C02_full_output_complete : forall body pick p o kw d lg,
+  wf_pipeline p -> is_output p o = true -> aget kw o = None ->
+  run body pick p o kw true = (Ok (Full d), lg) ->
+  (forall k x, aget kw k = Some x -> aget d k = Some x)
+  /\ (forall k x, aget kw k = None ->
+        (aget d k = Some x <->
+         exists f, In f (needed_top p kw o) /\ In k (outs f) /\ eval_top body pick p kw k = Ok x)).
+Proof. exact full_output_complete. Qed.
+Print Assumptions C02_full_output_complete.
+
+(* a supplied intermediate reaches every consumer that does not bind the name ... *)
+Theorem C02_supplied_replaces_producer : forall body pick p o kw v,
+  wf_pipeline p -> is_output p o = true -> aget kw o = None -> eval_top body pick p kw o = Ok v ->
+  forall c f a x orig, In c (snd (run body pick p o kw false)) -> In f p -> fst c = fname f ->
+    In (a, orig) (params f) -> aget (bound f) a = None -> aget kw a = Some x -> In (orig, x) (snd c).
+Proof. exact supplied_reaches_consumers. Qed.
+Print Assumptions C02_supplied_replaces_producer.
+
+(* ... and a function is executed only for the requested output or because a needed consumer reads one of its
+   outputs that is neither bound nor supplied *)
+Theorem C02_producer_called_only_if_needed : forall body pick p o kw v g,
+  wf_pipeline p -> is_output p o = true -> aget kw o = None -> eval_top body pick p kw o = Ok v ->
+  In g p -> In (fname g) (map fst (snd (run body pick p o kw false))) ->
+  producer p o = Some g \/
+  exists f b, In f (needed_top p kw o) /\ In b (pnames f) /\ In b (outs g)
+              /\ aget (bound f) b = None /\ aget kw b = None.
+Proof. exact producer_called_only_if_needed. Qed.
+Print Assumptions C02_producer_called_only_if_needed.
+
+(* a keyword that names no parameter of an executed function is rejected (after the evaluation) *)
+Theorem C02_unused_rejected : forall body pick p o kw v,
+  wf_pipeline p -> is_output p o = true -> aget kw o = None -> eval_top body pick p kw o = Ok v ->
+  (exists k, In k (akeys kw) /\ ~ In k (param_names_needed p kw o)) ->
+  fst (run body pick p o kw false) = Err UnusedParametersError.
+Proof. exact unused_rejected. Qed.
+Print Assumptions C02_unused_rejected.
+
+(* supplying exactly the root-argument names of o (spec_roots: the non-output names the evaluation reads) is
+   accepted: nothing unused, nothing missing *)
+Theorem C02_spec_roots_accepted : forall p o kw,
+  (forall k, In k (akeys kw) <-> In k (spec_roots p o)) -> aget kw o = None \/ is_output p o = false ->
+  no_unused p kw o /\ sufficient p kw o.
+Proof. exact spec_roots_accepted. Qed.
+Print Assumptions C02_spec_roots_accepted.
+
+(* every element of arg_combinations(o) (model of _compute_arg_mapping, repaired code) is accepted: with exactly
+   those keywords nothing is unused, nothing is missing, and run returns the value of the specification *)
+Theorem C02_arg_combinations_accepted : forall body pick p o cs c kw,
+  wf_pipeline p -> is_output p o = true -> arg_combinations p o = Ok cs -> In c cs ->
+  (forall k, In k (akeys kw) <-> In k c) ->
+  aget kw o = None /\ no_unused p kw o /\ sufficient p kw o
+  /\ fst (run body pick p o kw false) = lift_value (eval_top body pick p kw o).
+Proof. exact arg_combinations_accepted. Qed.
+Print Assumptions C02_arg_combinations_accepted.
+
+Theorem C02_root_args_accepted : forall body pick p o c kw,
+  wf_pipeline p -> is_output p o = true -> root_args p o = Ok c ->
+  (forall k, In k (akeys kw) <-> In k c) ->
+  (forall k, In k c -> is_output p k = false)
+  /\ aget kw o = None /\ no_unused p kw o /\ sufficient p kw o
+  /\ fst (run body pick p o kw false) = lift_value (eval_top body pick p kw o).
+Proof. exact root_args_accepted. Qed.
+Print Assumptions C02_root_args_accepted.
+
+(* "yields this value": supplying an intermediate with the value the pipeline computes for it changes no value,
+   and keywords that the evaluation does not read are irrelevant *)
+Theorem C02_supplied_computed_consistent : forall body pick p kw a va x,
+  wf_pipeline p -> aget kw a = None -> eval_top body pick p kw a = Ok va ->
+  eval_top body pick p ((a, va) :: kw) x = eval_top body pick p kw x.
+Proof. exact supplied_computed_consistent. Qed.
+Print Assumptions C02_supplied_computed_consistent.
+
+Theorem C02_unread_keywords_irrelevant : forall body pick p kw1 kw2 x,
+  wf_pipeline p ->
+  (forall f cur, In f (needed_top p kw1 x) -> In cur (pnames f) -> aget (bound f) cur = None ->
+                 aget kw1 cur = aget kw2 cur) ->
+  eval_top body pick p kw2 x = eval_top body pick p kw1 x.
+Proof. exact unread_keywords_irrelevant. Qed.
+Print Assumptions C02_unread_keywords_irrelevant.
+
+(* ---------- non-vacuity: a diamond with a tuple-output function, a default, a bound value, a rename ---------- *)
+Definition ex_p : pipeline :=
+  [ mkf (s "f") [s "a"; s "b"] [(s "x", s "x")] [] [] false;
+    mkf (s "g") [s "c"] [(s "a", s "p0"); (s "y", s "y")] [(s "y", s "d_y")] [] false;
+    mkf (s "h") [s "d"] [(s "b", s "b"); (s "c", s "c"); (s "z", s "z")] [] [(s "z", s "B")] false ].
+Example ex_wf : wf_pipeline ex_p.
+Proof. vm_compute. reflexivity. Qed.
+Example ex_hyps : is_output ex_p (s "d") = true /\ aget [(s "x", s "1")] (s "d") = None
+                  /\ subset_str (akeys [(s "x", s "1")]) (param_names_needed ex_p [(s "x", s "1")] (s "d")) = true.
+Proof. vm_compute. auto. Qed.
+Example ex_value :
+  run Sym.body Sym.pick ex_p (s "d") [(s "x", s "1")] false =
+  (Ok (Value (s "h(b=out(b;f(x=1)),c=g(p0=out(a;f(x=1)),y=d_y),z=B)")),
+   [(s "f", [(s "x", s "1")]);
+    (s "g", [(s "p0", s "out(a;f(x=1))"); (s "y", s "d_y")]);
+    (s "h", [(s "b", s "out(b;f(x=1))"); (s "c", s "g(p0=out(a;f(x=1)),y=d_y)"); (s "z", s "B")])]).
+Proof. vm_compute. reflexivity. Qed.
+Example ex_roots : spec_roots ex_p (s "d") = [s "x"; s "y"] /\ root_args ex_p (s "d") = Ok [s "x"; s "y"].
+Proof. vm_compute. auto. Qed.
+
+(* the two repaired defects, replayed on the model of the repaired code *)
+Example ex_fixed_full_output :   (* (a,b)=f(x); c=g(a,b); run("c", {x:1, a:"S"}, full_output=True) keeps the supplied a *)
+  let p := [ mkf (s "f") [s "a"; s "b"] [(s "x", s "x")] [] [] false;
+             mkf (s "g") [s "c"] [(s "a", s "a"); (s "b", s "b")] [] [] false ] in
+  fst (run Sym.body Sym.pick p (s "c") [(s "x", s "1"); (s "a", s "S")] true) =
+  Ok (Full [(s "x", s "1"); (s "a", s "S"); (s "b", s "out(b;f(x=1))"); (s "c", s "g(a=S,b=out(b;f(x=1)))")]).
+Proof. vm_compute. reflexivity. Qed.
+Example ex_fixed_arg_combinations :   (* (a,b)=f(x); d=h(a): the combination is ('a',), not ('a','b') *)
+  let p := [ mkf (s "f") [s "a"; s "b"] [(s "x", s "x")] [] [] false;
+             mkf (s "h") [s "d"] [(s "a", s "a")] [] [] false ] in
+  arg_combinations p (s "d") = Ok [[s "a"]; [s "x"]].
+Proof. vm_compute. reflexivity. Qed.
